@@ -195,3 +195,12 @@ B("dzero-divisor-mutated-after-test", ["C10"],
 N("dzero-unrelated-later-assignment", ["C10"],
   [("src/algorithms/gcd/mod.rs", "            // will make a lot of progress since `q` will be large.\n            let q = a / b;\n            a -= q * b;\n            swap(&mut a, &mut b);\n            t0 -= q * t1;",
     "            // will make a lot of progress since `q` will be large.\n            if b == Uint::ONE {\n                a = b;\n                t0 = t1;\n                even = !even;\n                break;\n            }\n            let q = a / b;\n            a -= q * b;\n            swap(&mut a, &mut b);\n            t0 -= q * t1;")])
+
+# ---- R-CODEC/compact-modes (round-3 seed C16)
+B("compact-big4-strict-bound", ["C16"],
+  [("src/support/scale.rs", "                    if x > u32::MAX >> 2 {", "                    if x > 1 << 30 {")], "big-4")
+N("compact-canonical-tightening", ["C16", "C17"],
+  [("src/support/scale.rs", "                if (0b0011_1111..=0b0011_1111_1111_1111).contains(&x) {", "                if (1 << 6..1 << 14).contains(&x) {"),
+   ("src/support/scale.rs", "                if (0b0011_1111_1111_1111..=u32::MAX >> 2).contains(&x) {", "                if (1 << 14..1 << 30).contains(&x) {")])
+B("compact-two-byte-too-tight", ["C16"],
+  [("src/support/scale.rs", "                if (0b0011_1111..=0b0011_1111_1111_1111).contains(&x) {", "                if (1 << 6..(1 << 14) - 1).contains(&x) {")], "two-byte")
